@@ -16,7 +16,7 @@ ASSUMPTIONS = [
 
 def harnesses(tier, seed):
     hs, skipped = [], []
-    gr = schemas.leaf_schemas() + schemas.depth2(["int", "mix"] if tier == "quick" else schemas.D2_LEAVES) + schemas.extras()
+    gr = schemas.leaf_schemas() + schemas.depth2(["int", "mix"] if tier == "quick" else schemas.D2_LEAVES) + schemas.extras(tier)
     field_too = {"L_int", "L_date", "L_mix", "L_nt", "L_td", "L_gen_int", "L_lit", "L_color", "L_timezone", "L_plain"}
     for s in gr:
         if "stype" in s.tags:
@@ -31,7 +31,7 @@ def harnesses(tier, seed):
             except Exception as e:
                 skipped.append((s.name, variant, repr(e)[:200]))
     # deep valid inputs: REF_ENCODE(v) for a symbolic conforming v (structured schemas, where depth-1 inputs are all rejected)
-    deep = [s for s in schemas.leaf_schemas() + schemas.extras()
+    deep = [s for s in schemas.leaf_schemas() + schemas.extras(tier)
             if "stype" not in s.tags and "fieldonly" not in s.tags and structured(s)]
     if tier != "quick":
         deep += [s for s in schemas.depth2(["mix", "nt", "td"]) if "stype" not in s.tags and "fieldonly" not in s.tags]
